@@ -315,7 +315,11 @@ func genPubCase(rr *h.Rand, o *gen.Oracle) pubCase {
 	var claim []string
 	for i := 0; i < nt; i++ {
 		var topic string
-		switch rr.Intn(7) {
+		switch rr.Intn(9) {
+		case 7, 8: // a claim `literal{var}`: the topic shares the literal; its remainder is an expansion of the variable or is not
+			lit := "https://example.com/" + gen.Literal(rr, false) + "/"
+			claim = append(claim, lit+"{id}")
+			topic = lit + h.Pick(rr, []string{"1", "abc", "a,b", "%41", "1?role=admin", "a#f", "a:b", "a b", "é", "%zz", "a@b", "a=b", "a+b", "a;b", "a/b", ""})
 		case 0, 5: // covered by an equal literal
 			topic = gen.Literal(rr, false)
 			claim = append(claim, topic)
